@@ -98,6 +98,13 @@ def run(ctx):
     r = vlib.tlc("MCSealed.tla", "MCSealedReuse.cfg", workers=1, timeout=300, metadir=os.path.join(ctx.out, "mc-reuse"))
     ctx.negative_control(r.violated == "NonceFresh", "model: nonces drawn with replacement must violate NonceFresh")
 
+    if not q:
+        # unbounded in the number of steps and key files: Access, NoWrongKey are inductive (Apalache, KeysInd.tla)
+        ok = vlib.apalache_inductive(ctx, "KeysInd")
+        if ok != (True, True):
+            raise vlib.ToolError("KeysInd: invariant not inductive: %s" % (ok,))
+        bad = vlib.apalache_inductive(ctx, "KeysInd", subst={"/\\ IF sess = k THEN UNCHANGED <<keys, next, sess>>": "/\\ IF FALSE THEN UNCHANGED <<keys, next, sess>>"}, neg=True)
+        ctx.negative_control(bad[1] is False, "Apalache: removing the key in use must break the induction step")
     # (1) the primitive
     msg = os.path.join(ctx.out, "msg.ndjson")
     rc, out = vlib.vh(["sealed-msg", "--seed", ctx.seed, "--out", msg] + ([] if q else ["--full", "1"]), timeout=3000)
